@@ -490,7 +490,7 @@ def check_hostile(recipe, ctx):
 
 SUBS = [
     Sub('cli', check_cli, gen=gen_cli, quick=3000, thorough=10000,
-        floors={'outcome-ok': 0.4, 'outcome-glomerror': 0.03, 'outcome-usage-error': 0.05, 'tformat-toml': 0.03, 'tformat-yaml': 0.1}),
+        floors={'outcome-ok': 0.25, 'outcome-glomerror': 0.03, 'outcome-usage-error': 0.05, 'tformat-toml': 0.02, 'tformat-yaml': 0.07}),
     Sub('hostile', check_hostile, gen=gen_hostile, quick=1200, thorough=4000, floors={'diff-reject': 0.5}),
     Sub('process', check_process, gen=gen_cli, quick=64, thorough=128),
     fuzzrun.fuzz_sub('fuzz-spec-text', 'c19-spec-text', runs=20000, campaigns=4,
